@@ -248,12 +248,12 @@ class J3Result:
         self.tlc = None
 
 
-def validate(lines, p, keys_mod, scratch_dir, name, timeout=3000):
+def validate(lines, p, keys_mod, scratch_dir, name, timeout=3000, cfg_name="CertTrace.cfg"):
     """Run CertTrace on one chunk of recorded lines."""
     path = os.path.join(scratch_dir, name + ".ndjson")
     with open(path, "w") as fh:
         fh.write("".join(lines))
-    cfg = make_cfg("CertTrace.cfg", p, max_ops=0)
+    cfg = make_cfg(cfg_name, p, max_ops=0)
     r = vlib.tlc(SPEC_DIR, "CertTrace", "trace.cfg", workers=1, timeout=timeout,
                  extra_files={"trace.cfg": cfg, "CertKeys.tla": keys_mod}, copy_files={"trace.ndjson": path})
     j = J3Result()
@@ -315,7 +315,7 @@ def act_of(d):
 CT_KNOWN_SIG = "T_ListingComplete:list:count_total:next_key-overwritten-by-nonmatching-key"
 
 
-def violation_from(j, chunk_lines, paths, p, origin, ct=None):
+def violation_from(j, chunk_lines, paths, p, origin, ct=None, pid="C17"):
     """Turn a TLC verdict on recorded lines into a Violation with a replayable script.
     ct = (tag, line, qindex): a count_total listing on which TLC found QComplete false (non-stopping verdict)."""
     violated, line, qindex = j.violated, j.line, j.qindex
@@ -343,6 +343,10 @@ def violation_from(j, chunk_lines, paths, p, origin, ct=None):
     what = violated
     detail = "TLC: %s is false on line %d of the recorded trace (%s)\n" % (violated, idx + 1, origin)
     detail += "step: %s -> ok=%s %s %s\n" % (describe_act(d), d["ok"], d["stage"], d["err"])
+    if d.get("note"):
+        detail += "note: %s\n" % d["note"]
+    if d.get("digests"):
+        detail += "digests: %s\n" % d["digests"]
     if prev is not None:
         detail += "registry before: %s\n" % (prev["sid"] or "(empty)")
     detail += "registry after:  %s\n" % (d["sid"] or "(empty)")
@@ -361,7 +365,9 @@ def violation_from(j, chunk_lines, paths, p, origin, ct=None):
     files = {"script.ndjson": json.dumps(script) + "\n", "params.json": json.dumps(p),
              "mode.txt": "deliver" if origin == "deliver" else "paths",
              "trace_prefix.ndjson": "".join(chunk_lines[max(0, idx - 3): idx + 1])}
-    return vlib.Violation("C17", sig, detail, files)
+    if pid != "C17":
+        sig = "%s:cert:%s" % (pid, sig)
+    return vlib.Violation(pid, sig, detail, files)
 
 
 # ------------------------------------------------------------------------------------------------
@@ -456,11 +462,12 @@ def run_harness(vh, mode, p, infile, outfile, extra=None):
         raise vlib.Inconclusive("harness `vh cert %s`: no stats line:\n%s" % (mode, txt[-2000:]))
 
 
-def validate_all(lines, p, keys_mod, sdir, name, nchunks):
+def validate_all(lines, p, keys_mod, sdir, name, nchunks, cfg_name="CertTrace.cfg"):
     chunks = split_chunks(lines, nchunks)
     out = []
     with concurrent.futures.ThreadPoolExecutor(max_workers=min(len(chunks), max(2, vlib.NCPU - 2))) as ex:
-        futs = [ex.submit(validate, c, p, keys_mod, sdir, "%s-%d" % (name, i)) for i, (_, c) in enumerate(chunks)]
+        futs = [ex.submit(validate, c, p, keys_mod, sdir, "%s-%d" % (name, i), 3000, cfg_name)
+                for i, (_, c) in enumerate(chunks)]
         for (start, c), f in zip(chunks, futs):
             out.append((start, c, f.result()))
     return out
@@ -680,6 +687,127 @@ def run(pid, tier, seed, replay):
         "entries a listing returns beyond those its filter matches are drift, not a violation",
     ]
     return vlib.finish(pid, tier, seed, "model_checking", coverage, t0, uniq, assumptions)
+
+
+# ------------------------------------------------------------------------------------------------
+# stages run on behalf of the chain family (tools/checks/chain.py): certificate transactions for C06 and C07
+
+def _info(vh, p):
+    rc, txt = vlib.run([vh, "cert", "info"] + vh_args(p), timeout=300)
+    if rc != 0:
+        raise vlib.Inconclusive("vh cert info failed:\n" + txt[-2000:])
+    info = json.loads(txt.strip().splitlines()[-1])
+    keyorder = [tuple(x) for x in info["keyorder"]]
+    return keyorder, keys_module(keyorder, p)
+
+
+def _small_main():
+    return dict(owners=["A", "B"], serials=["z0", "s1", "s256"], bodies=2, foreign=["s1"], max_ops=3, page_sizes=[0],
+                queries="none", n_deliver=4, path_len=10, chunks=4, light=True)
+
+
+def _stage_c06(pid, vh, tier, seed, sdir):
+    """C06 for certificates: GetSigners() of create / revoke is exactly the owner the message names (T_C06_Signers);
+    a create / revoke changes no record but the owner+serial it names, decimal reading (T_C06_Touch)."""
+    violations, cov = [], {"states": 0, "transitions": 0, "traces_validated_against_impl": 0, "evaluations": 0,
+                           "configs": {}, "drift_steps": 0}
+    sp = spell_config("quick", seed)
+    sp.update(queries="none", n_deliver=4, path_len=10)
+    for tag, p in (("spell", sp), ("main", _small_main())):
+        keyorder, keys_mod = _info(vh, p)
+
+        def f(name):
+            return os.path.join(sdir, "c06-%s-%s" % (tag, name))
+        n_edges, j2 = export_edges(p, keys_mod, keyorder, f("edges.ndjson"))
+        gstats = run_harness(vh, "graph", p, f("edges.ndjson"), f("graph.ndjson"),
+                             ["--queries", "none", "--pathsout", f("paths.json")])
+        dscripts = random_scripts(p, seed + 77, p["n_deliver"], p["path_len"])
+        with open(f("dscripts.ndjson"), "w") as fh:
+            for sc in dscripts:
+                fh.write(json.dumps(sc) + "\n")
+        dstats = run_harness(vh, "deliver", p, f("dscripts.ndjson"), f("deliver.ndjson"), ["--queries", "none"])
+        paths = json.load(open(f("paths.json")))
+        for origin, fn, n in (("graph", f("graph.ndjson"), p["chunks"]), ("deliver", f("deliver.ndjson"), 1)):
+            lines = open(fn).readlines()
+            for start, chunk, j in validate_all(lines, p, keys_mod, sdir, "c06-%s-%s" % (tag, origin), n, "CertTraceC06.cfg"):
+                cov["drift_steps"] += j.drift
+                if not j.ok:
+                    violations.append(violation_from(j, chunk, paths, p, origin, pid=pid))
+        cov["states"] += j2.distinct
+        cov["transitions"] += n_edges
+        cov["evaluations"] += gstats.get("steps", 0) + dstats.get("steps", 0)
+        cov["traces_validated_against_impl"] += gstats.get("segments", 0) + 1 + dstats.get("segments", 0)
+        cov["configs"][tag] = {"owners": p["owners"], "serials": p["serials"], "max_ops": p["max_ops"],
+                               "spellings": len(p.get("spell", [])), "graph": gstats, "signed_tx": dstats}
+    cov["samples"] = [{"signed_tx_script": dscripts[0][:6]}]
+    cov["rule"] = ("every edge of TLC's bounded certificate-transaction graph (Cert.tla, queries off) executed once on the "
+                   "real app, plus signed transactions delivered in blocks; TLC judges T_C06_Signers and T_C06_Touch")
+    return violations, cov
+
+
+def _stage_c07(pid, vh, tier, seed, sdir):
+    """C07 for certificates: repeated executions of the same create / revoke on the same state, in two application
+    instances, before and after the wall clock passed the validity edge of timed certificates, must agree."""
+    p = dict(owners=["A", "B"], serials=["z0", "s1", "s8", "s10"], bodies=2, foreign=["s1"], max_ops=0, page_sizes=[0],
+             spell=list(SPELL_ALPHABET), queries="none")
+    keyorder, keys_mod = _info(vh, p)
+    nbf, naf = p["bodies"] + 2, p["bodies"] + 3    # becomes valid at the edge / expires at the edge
+    rnd = random.Random(seed * 131 + 7)
+    # the timed certificates first, so that pass A meets them well before the edge
+    first = []
+    for o in p["owners"]:
+        for s, b in (("s1", nbf), ("s8", naf), ("z0", nbf)):
+            first.append(dict(k="create", signer=o, mo=o, o=o, s=s, b=b, sp=""))
+    first.append(dict(k="revoke", signer="A", mo="", o="A", s="s1", b=0, sp=""))
+    first.append(dict(k="revoke", signer="B", mo="", o="B", s="s8", b=0, sp="010"))
+    scripts = [first]
+    for sc in random_scripts(p, seed + 99, 14 if tier == "quick" else 60, 12):
+        for a in sc:
+            if a["k"] == "create" and rnd.random() < 0.3:
+                a["b"] = rnd.choice([nbf, naf])
+        scripts.append(sc)
+    inp, outp = os.path.join(sdir, "c07-scripts.ndjson"), os.path.join(sdir, "c07-det.ndjson")
+    with open(inp, "w") as fh:
+        for sc in scripts:
+            fh.write(json.dumps(sc) + "\n")
+    stats = run_harness(vh, "det", p, inp, outp, ["--queries", "none", "--reps", "2", "--window", "2500"])
+    if not stats.get("timed_before_edge") or not stats.get("timed_after_edge"):
+        raise vlib.Inconclusive("C07 certificate stage: timed certificates were not executed on both sides of their "
+                                "validity edge (%s)" % json.dumps(stats))
+    lines = open(outp).readlines()
+    violations = []
+    for start, chunk, j in validate_all(lines, p, keys_mod, sdir, "c07", 2, "CertTraceC07.cfg"):
+        if not j.ok:
+            violations.append(violation_from(j, chunk, {}, p, "paths", pid=pid))
+    cov = {"evaluations": stats.get("executions", 0), "steps": stats.get("steps", 0),
+           "traces_validated_against_impl": stats.get("segments", 0), "det": stats,
+           "samples": [{"timed_script": first[:4]}],
+           "rule": "every certificate transaction of every script executed 2x on sibling branches in one application "
+                   "instance, then, after the wall clock passed the validity edge of the timed certificate bodies "
+                   "(NotBefore / NotAfter = edge), 2x in a second instance; digests = result, error text, gas, events, "
+                   "store bytes; TLC judges T_Deterministic"}
+    return violations, cov
+
+
+def extra_stage(pid, vh, tier, seed):
+    """Certificate transactions for a property of the chain family. pid "C06" or "C07"; vh = path of the built harness
+    binary (vlib.build_harness()). Returns (violations, coverage): violations are vlib.Violation objects carrying the
+    GIVEN pid; coverage is a dict to merge into the caller's evidence. Raises vlib.Inconclusive on tool trouble."""
+    sdir = vlib.scratch("cert-%s-" % pid.lower())
+    t0 = time.time()
+    if pid == "C06":
+        v, cov = _stage_c06(pid, vh, tier, seed, sdir)
+    elif pid == "C07":
+        v, cov = _stage_c07(pid, vh, tier, seed, sdir)
+    else:
+        return [], {}
+    seen, uniq = set(), []
+    for x in v:
+        if x.signature not in seen:
+            seen.add(x.signature)
+            uniq.append(x)
+    cov["wall_s"] = round(time.time() - t0, 1)
+    return uniq, {"cert_stage": cov}
 
 
 def run_replay(pid, tier, seed, replay, vh, sdir, t0):
